@@ -57,6 +57,7 @@ type c04Case struct {
 	CutWho int
 	Sign   bool
 	Salt   int
+	GenPre []int `json:",omitempty"` // ECDSA, last stage: new members that let the library generate their pre-parameters
 }
 
 func genC04(edd bool) func(t *rapid.T) c04Case {
@@ -284,6 +285,9 @@ func runC04(c c04Case) ev.Outcome {
 	for si, st := range c.Stages {
 		last := si == len(c.Stages)-1
 		run := protoRun{Proto: proto, Key: key, Members: st.Old, NewKeys: st.NewKeys, NewT: st.NewT, Proofs: c.Proofs}
+		if si == len(c.Stages)-1 {
+			run.GenPre = c.GenPre
+		}
 		desc = append(desc, fmt.Sprintf("|old|=%d/t=%d->n'=%d/t'=%d", len(st.Old), curT, len(st.NewKeys), st.NewT))
 		x := run.build()
 		w := watchResharing(x)
@@ -482,4 +486,27 @@ func TestC04ReshareEdDSA(t *testing.T) {
 func TestC04ReshareECDSA(t *testing.T) {
 	r := ev.New(t, "C04")
 	ev.Drive(t, r, genC04(false), runC04)
+}
+
+// TestC04GeneratedPreParams: new members that pass no pre-parameters (the library generates Paillier key and
+// ring-Pedersen parameters itself, inside round 2) with the production proofs on. Expensive (two 2048-bit
+// moduli per such member), hence a list: one case in the quick tier, several in the thorough tier.
+func TestC04GeneratedPreParams(t *testing.T) {
+	r := ev.New(t, "C04")
+	q := ref.Secp.N
+	mkCase := func(k int, gen []int, nNew, newT int) c04Case {
+		return c04Case{Key: keyChoice{Src: "dealer", N: 3, T: 1, Pattern: "random256", Seed: fmt.Sprintf("%d", k)},
+			Stages: []c04Stage{{Old: []int{0, 1, 2}[:2+k%2], NewKeys: hxs(detPartyKeys("random256", nNew, q, fmt.Sprintf("c04-gen/%d/%d", ev.Seed(), k))), NewT: newT}},
+			Proofs: true, Sched: SchedSpec{Kind: "fifo"}, Sign: true, Salt: k, GenPre: gen}
+	}
+	cases := []c04Case{mkCase(0, []int{int(ev.Seed() % 3)}, 3, 1)}
+	if ev.Tier() == "thorough" {
+		cases = append(cases, mkCase(1, []int{0, 1, 2}, 3, 2), mkCase(2, []int{1}, 2, 1), mkCase(3, []int{0, 3}, 4, 2))
+	}
+	ev.Each(t, r, cases, func(c c04Case) ev.Outcome {
+		out := runC04(c)
+		out.Label += fmt.Sprintf(" generated-preparams=%v", c.GenPre)
+		out.Nontrivial = true
+		return out
+	})
 }
